@@ -252,6 +252,10 @@ def content_between(doc: Node, from_: int, to: int) -> bool:
     from__ = doc.resolve(from_)
     dist = to - from_
     depth = from__.depth
+    if dist > 0 and from__.text_offset > 0:
+        # inside a text node: the rest of that node lies between the positions
+        # (index_after below would count the node as already passed)
+        return True
     while (
         dist > 0
         and depth > 0
